@@ -148,6 +148,40 @@ func checkC10(c *Ctx) {
 	}
 	an.run()
 	an.report()
+	// side condition of the trusted callees: they (and what they call inside the module) contain no explicit panic —
+	// the importer hands them nodes assembled from untrusted input and relies on an error / nil result
+	for _, name := range []string{"*Node._hash", "*Node.writeBytes"} {
+		root := l.Func("", name)
+		if root == nil {
+			c.anchorMissing("TOTAL-importer", name)
+			continue
+		}
+		seen := map[*ssa.Function]bool{}
+		var at ssa.Instruction
+		var visit func(f *ssa.Function, d int)
+		visit = func(f *ssa.Function, d int) {
+			if f == nil || seen[f] || d > 4 || f.Blocks == nil || !l.inModule(f) {
+				return
+			}
+			seen[f] = true
+			allInstrs(f, func(in ssa.Instruction) {
+				if p, ok := in.(*ssa.Panic); ok && at == nil {
+					at = p
+				}
+				if cc := callCommon(in); cc != nil {
+					if g := staticCallee(cc); g != nil {
+						visit(g, d+1)
+					}
+				}
+			})
+		}
+		visit(root, 0)
+		pos := l.pos(root.Pos())
+		if at != nil {
+			pos = l.ipos(at)
+		}
+		c.decide("TOTAL-importer", "trusted callee "+name+" has no explicit panic", pos, at == nil, "no panic statement in it or in the module functions it calls", "an explicit panic is reachable from "+name+", which the importer calls on nodes assembled from an arbitrary stream (e.g. an inner node without children): a hostile stream aborts the process instead of being rejected")
+	}
 	// side condition of the declared invariant
 	ni := l.Func("", "newImporter")
 	okInv := ni != nil
@@ -240,6 +274,7 @@ func checkC10(c *Ctx) {
 	}
 	// ---- (2b) the background node batch and the root batch
 	checkInflightProtocol(c, "OWN-root-marker")
+	checkImportWriteOnce(c, "OWN-root-marker")
 	// ---- (2c) keys handed on by the decompressing wrapper
 	checkDecodedKeyNonNil(c)
 
@@ -613,5 +648,43 @@ func checkDecodedKeyNonNil(c *Ctx) {
 	}
 	if n == 0 {
 		c.anchorMissing(R, "deltaDecode has no success return")
+	}
+}
+
+// checkImportWriteOnce (shared by C12 and C10): every imported node is written
+// to storage exactly once, under its final key.  A node still on the stack may
+// yet be re-keyed (the root gets nonce 1 in Commit), so Add writes only the two
+// children it pops; Commit writes the root after fixing its nonce.  Writing a
+// node when it is pushed leaves a second copy of the root under its
+// provisional key, unreachable and never pruned.
+func checkImportWriteOnce(c *Ctx, rule string) {
+	l := c.L
+	add, commit, wn := l.Func("", "*Importer.Add"), l.Func("", "*Importer.Commit"), l.Func("", "*Importer.writeNode")
+	if add == nil || commit == nil || wn == nil {
+		c.anchorMissing(rule, "Importer.Add / Commit / writeNode")
+		return
+	}
+	top1, top2 := "recv.stack[(len(recv.stack)-1)]", "recv.stack[(len(recv.stack)-2)]"
+	n := 0
+	for _, in := range callsIn(add, predStatic(wn)) {
+		n++
+		r := roleOfIdx(l, callCommon(in).Args[1])
+		c.decide(rule, "Importer.Add writes only the children it pops from the stack", l.ipos(in), r == top1 || r == top2, "writeNode("+r+")", "Add writes `"+r+"`: a node that stays on the stack (and may still be re-keyed as the root) is written under a provisional key and written again later — an unreachable copy remains")
+	}
+	if n != 2 {
+		c.bad(rule, "Importer.Add writes both popped children", l.pos(add.Pos()), fmt.Sprintf("%d writeNode calls in Add, 2 expected (left and right child)", n))
+	}
+	fNonce := l.Field("", "NodeKey", "nonce")
+	for _, in := range callsIn(commit, predStatic(wn)) {
+		r := roleOfIdx(l, callCommon(in).Args[1])
+		okOrder := false
+		if fNonce != nil {
+			for _, st := range storesToField(commit, fNonce) {
+				if k, isK := constInt(st.Val); isK && k == 1 && instrDominates(st, in) {
+					okOrder = true
+				}
+			}
+		}
+		c.decide(rule, "Importer.Commit writes the root after fixing its nonce", l.ipos(in), r == "recv.stack[0]" && okOrder, "nonce = 1, then writeNode(stack[0])", "Commit writes `"+r+"` / before the root's key is final")
 	}
 }
